@@ -2,7 +2,7 @@
 
   chia-consensus/src/consensus_constants.rs   TEST_CONSTANTS.cost_per_byte, .max_block_cost_clvm
   chia-consensus/src/run_block_generator.rs   MAX_CONDITIONS_PER_SPEND; the `0, // clvm_cost` argument of the
-                                              legacy path; position of its SIMPLE_GENERATOR reference check; which ROM/deserializer constants are used
+                                              legacy path; position of its SIMPLE_GENERATOR reference check; bodies, presence and position of check_generator_quote / check_generator_node on both paths and in the coin-spend helpers; which ROM/deserializer constants are used
   chia-consensus/src/generator_cost.rs        the interned_vbytes weight expression
   chia-protocol/src/spend_bundle.rs           budget and CREATE_COIN cost of SpendBundle::additions
   chia-puzzles (version pinned by /repo/Cargo.lock, offline registry)
@@ -76,6 +76,47 @@ def generate(repo):
     if not (0 <= i1 < i2 < i3 < i4 < i5):
         raise TieBroken("run_block_generator: the SIMPLE_GENERATOR block-reference check is missing or moved "
                         "(expected after check_generator_node and before the ROM arguments are built)")
+
+    # the byte-level check_generator_quote and the node-level check_generator_node: bodies, and presence + position on
+    # every path that Chain/Generator.v and Chain/Trusted.v mirror (check_generator_quote first, before any cost is
+    # charged or any byte is parsed; check_generator_node after deserialisation and, on the two full-validation paths,
+    # after the storage cost is charged)
+    q = norm_ws(fn_body(src, r"pub fn check_generator_quote\(program: &\[u8\], flags: ConsensusFlags\) -> Result<\(\), ValidationErr> \{",
+                        "check_generator_quote"))
+    if q != ("if !flags.contains(ConsensusFlags::SIMPLE_GENERATOR) || program.starts_with(&[0xff, 0x01]) { Ok(()) } else { "
+             "Err(ValidationErr::Err(ErrorCode::ComplexGeneratorReceived)) }"):
+        raise TieBroken("check_generator_quote: body changed: %r" % q[:200])
+    nd = norm_ws(fn_body(src, r"pub fn check_generator_node\(", "check_generator_node"))
+    if nd != ("if !flags.contains(ConsensusFlags::SIMPLE_GENERATOR) { return Ok(()); } "
+              "match <(MatchByte<1>, NodePtr)>::from_clvm(a, program) { "
+              "Err(..) => Err(ValidationErr::Err(ErrorCode::ComplexGeneratorReceived)), _ => Ok(()), }"):
+        raise TieBroken("check_generator_node: body changed: %r" % nd[:300])
+
+    def ordered(body, what, marks):
+        pos = -1
+        for mk in marks:
+            if body.count(mk) < 1:
+                raise TieBroken("%s: `%s` is missing" % (what, mk))
+            i = body.find(mk)
+            if i <= pos:
+                raise TieBroken("%s: `%s` moved (expected order: %s)" % (what, mk, " ; ".join(marks)))
+            pos = i
+    if legacy.lstrip("{ ").find("check_generator_quote(program, flags)?;") != 0:
+        raise TieBroken("run_block_generator: check_generator_quote(program, flags)? is not the first statement")
+    ordered(legacy, "run_block_generator",
+            ["check_generator_quote(program, flags)?;", "subtract_cost(&mut cost_left, byte_cost)?;",
+             "node_from_bytes_backrefs(&mut a, program)?;", "check_generator_node(&a, program, flags)?;",
+             "flags.contains(ConsensusFlags::SIMPLE_GENERATOR) && block_refs.peek().is_some()", "run_program("])
+    native = norm_ws(fn_body(src, r"pub fn run_block_generator2<", "run_block_generator2"))
+    if native.lstrip("{ ").find("check_generator_quote(program, flags)?;") != 0:
+        raise TieBroken("run_block_generator2: check_generator_quote(program, flags)? is not the first statement")
+    ordered(native, "run_block_generator2",
+            ["check_generator_quote(program, flags)?;", "node_from_bytes_backrefs(", "subtract_cost(&mut cost_left, base_cost)?;",
+             "check_generator_node(&a, program, flags)?;", "setup_generator_args(&mut a, block_refs, flags)?;", "run_program("])
+    for fn in ("get_coinspends_for_trusted_block", "get_coinspends_with_conditions_for_trusted_block"):
+        hb = norm_ws(fn_body(src, r"pub fn %s<" % fn, fn))
+        ordered(hb, fn, ["check_generator_quote(generator.as_ref(), flags)?;", "node_from_bytes_backrefs(&mut a, generator)?;",
+                         "check_generator_node(&a, program, flags)?;", "setup_generator_args(&mut a, refs, flags)?;", "run_program("])
 
     src = strip_comments(read(repo, "crates/chia-consensus/src/generator_cost.rs"))
     body = norm_ws(fn_body(src, r"pub fn interned_vbytes\(tree: &InternedTree\) -> u64 \{", "interned_vbytes"))
